@@ -4,8 +4,11 @@ import (
 	"bytes"
 	"context"
 	"encoding/json"
+	"errors"
 	"fmt"
 	"strings"
+	"sync/atomic"
+	"time"
 
 	lime "github.com/takenet/lime-go"
 )
@@ -127,7 +130,37 @@ func Concat(items []*Item) []byte {
 
 // Send passes env (one of the five envelope pointer types) to t.Send; the
 // indirection is needed because Transport.Send takes an unexported interface.
+// ErrSpin is returned by Send/Receive when the transport call did not come back within the
+// safety deadline although the scripted connection never blocks: it is spinning.
+var ErrSpin = errors.New("pconn: the transport call does not return on a connection that never blocks")
+
+var spinSeen atomic.Bool
+
+// guard bounds one transport call in real time (15 s; 200 ms once a spin was seen, so that a
+// spinning implementation does not turn the enumeration into hours).
+func guard(ctx context.Context) (context.Context, context.CancelFunc) {
+	d := 15 * time.Second
+	if spinSeen.Load() {
+		d = 200 * time.Millisecond
+	}
+	return context.WithTimeout(ctx, d)
+}
+
+func spun(ctx, gctx context.Context, err error) error {
+	if gctx.Err() == context.DeadlineExceeded && ctx.Err() == nil {
+		spinSeen.Store(true)
+		return fmt.Errorf("%w (%v)", ErrSpin, err)
+	}
+	return err
+}
+
 func Send(ctx context.Context, t lime.Transport, env interface{}) error {
+	gctx, cancel := guard(ctx)
+	defer cancel()
+	return spun(ctx, gctx, send(gctx, t, env))
+}
+
+func send(ctx context.Context, t lime.Transport, env interface{}) error {
 	switch e := env.(type) {
 	case *lime.Message:
 		return t.Send(ctx, e)
@@ -146,9 +179,11 @@ func Send(ctx context.Context, t lime.Transport, env interface{}) error {
 // Receive calls t.Receive and returns the envelope as an empty interface
 // (nil when the transport returned a nil envelope).
 func Receive(ctx context.Context, t lime.Transport) (interface{}, error) {
-	env, err := t.Receive(ctx)
+	gctx, cancel := guard(ctx)
+	defer cancel()
+	env, err := t.Receive(gctx)
 	if err != nil {
-		return nil, err
+		return nil, spun(ctx, gctx, err)
 	}
 	var v interface{} = env
 	switch e := v.(type) {
